@@ -455,8 +455,9 @@ class Parser:
         a = []
         while not self.at(")"):
             if self.at("|") or self.at("||") or self.at("move"):
-                raise Unsupported("closure argument", self.peek().pos)
-            a.append(self.expr())
+                a.append(bits_parse_closure(self))      # (genbits) `|x| e` as the argument of `.map(..)`
+            else:
+                a.append(self.expr())
             if self.at(","):
                 self.next()
             elif not self.at(")"):
@@ -775,6 +776,8 @@ class FnTranslator:
         top_level = self.loop_depth == 0 and len(self.scopes) == 2
         for sc in self.scopes[:-1]:
             if name in sc and not nested_ok and not top_level:
+                if self.spec.get("shadow_ok"):      # (genbits) shadowing `let` inside a nested block: fresh Lean name
+                    return bits_declare_shadow(self, name, ty, mutable, ref_elem)
                 self.err("`%s` shadows a variable of an enclosing block (not translated)" % name, node)
         v = Var(name, self.fresh_lean(name), ty, mutable, ref_elem)
         self.scopes[-1][name] = v
@@ -1800,6 +1803,8 @@ class TMap(Ty):
 
 def bits_ty(tr, t):
     if t.kind == "tname":
+        if t.name in tr.generics and t.args and t.name in tr.unit.get("abstract_types", []):
+            return TAbs(t.name, tr.generics[t.name])      # `BitVec<u8>`: an abstract type whatever its arguments
         if t.name == "Option" and len(t.args) == 1:
             return TOpt(tr.ty(t.args[0]))
         if t.name == "BTreeMap" and len(t.args) == 2:
@@ -1849,6 +1854,10 @@ def bits_parse_stmt(p, x):
 
 def bits_parse_primary(p, no_struct):
     x = p.peek()
+    if x.kind == "op" and x.text == "(":
+        r = bits_parse_ceil8(p)
+        if r is not None:
+            return r
     if x.kind == "id" and x.text == "match":
         return bits_parse_match(p)
     if x.kind == "id" and x.text == "size_of" and p.at("::", 1) and p.at("<", 2) and p.peek(3).kind == "id" \
@@ -2066,6 +2075,9 @@ def bits_self_call(tr, e, code):
 
 def bits_expr(tr, e, code, expected):
     k = e.kind
+    r = bits_expr2(tr, e, code, expected)
+    if r is not None:
+        return r
     if k == "var" and e.name == "None" and not bits_declared(tr, "None"):
         if not isinstance(expected, TOpt):
             tr.err("the type of `None` cannot be read off the text", e)
@@ -2501,6 +2513,188 @@ def bits_match(tr, e, code, expected, value):
     return None
 
 
+# ---------------------------------------------------------------- genbits, part 2 (rank/select, wavelet matrix)
+
+def bits_declare_shadow(tr, name, ty, mutable, ref_elem):
+    """a `let` that shadows a variable of an enclosing block (spec `shadow_ok`): the new variable gets a Lean name that
+    no live variable uses, so the Lean text has no shadowing across blocks at all"""
+    lean = lean_name(name)
+    live = set(v.lean for sc in tr.scopes for v in sc.values())
+    while lean in live:
+        lean += "'"
+    v = Var(name, lean, ty, mutable, ref_elem)
+    tr.scopes[-1][name] = v
+    return v
+
+
+def bits_parse_closure(p):
+    x = p.peek()
+    if p.at("move"):
+        raise Unsupported("`move` closure", x.pos)
+    params = []
+    if p.at("||"):
+        p.next()
+    else:
+        p.expect("|")
+        while not p.at("|"):
+            if p.at("&"):
+                p.next()
+            params.append(p.ident().text)
+            if p.at(":"):
+                raise Unsupported("closure parameter with a type annotation", p.peek().pos)
+            if p.at(","):
+                p.next()
+        p.expect("|")
+    if p.at("{"):
+        raise Unsupported("closure with a block body", p.peek().pos)
+    body = p.expr()
+    return N("closure", x.pos, params=params, body=body)
+
+
+def bits_probe_type(tr, e):
+    """type of `e` without emitting code (None when it cannot be translated)"""
+    probe = Code()
+    n0 = tr.n_tmp
+    try:
+        _, t = tr.expr(e, probe, None)
+    except Unsupported:
+        t = None
+    tr.n_tmp = n0
+    return t
+
+
+def bits_abs_method(tr, e, code, expected):
+    """`recv.m(args)` where `recv` has an abstract type `X` and the spec declares the abstract function `X.m`
+    (first argument: the receiver).  `monadic=True`: the abstract function may panic (a `Res` value)."""
+    if e.recv.kind == "var" and not bits_declared(tr, e.recv.name):
+        return None
+    rt = bits_probe_type(tr, e.recv)
+    if not isinstance(rt, TAbs):
+        return None
+    key = "%s.%s" % (rt.name, e.name)
+    if key not in tr.absfns:
+        return None
+    f = tr.absfns[key]
+    if len(f["args"]) != len(e.args) + 1:
+        tr.err("`.%s` called with %d arguments, the spec says %d" % (e.name, len(e.args), len(f["args"]) - 1), e)
+    r, _ = tr.expr(e.recv, code, None)
+    parts = [atom(r)]
+    for a, at in zip(e.args, f["args"][1:]):
+        want = tr.ty_of_text(at)
+        s, t = tr.expr(a, code, want)
+        if t != want:
+            tr.err("argument of `.%s` has type %r, the spec says %r" % (e.name, t, want), a)
+        parts.append(atom(s))
+    ret = tr.ty_of_text(f["ret"])
+    if f.get("monadic"):
+        t = tr.tmp()
+        code.bind(t, ("call", f["lean"] + "".join(" " + x for x in parts)))
+        return t, ret
+    return f["lean"] + "".join(" " + x for x in parts), ret
+
+
+def bits_expr2(tr, e, code, expected):
+    k = e.kind
+    if k == "un" and e.op == "*":
+        t = bits_probe_type(tr, e.e)
+        if isinstance(t, TAbs) and ("deref:" + t.name) in tr.absfns:
+            f = tr.absfns["deref:" + t.name]
+            s, _ = tr.expr(e.e, code, None)
+            return "%s %s" % (f["lean"], atom(s)), tr.ty_of_text(f["ret"])
+        return None
+    if k == "mcall":
+        r = bits_abs_method(tr, e, code, expected)
+        if r is not None:
+            return r
+        if e.name == "map" and len(e.args) == 1 and e.args[0].kind == "closure" and len(e.args[0].params) == 1:
+            # `opt.map(|x| body)`
+            o, ot = tr.expr(e.recv, code, None)
+            if not isinstance(ot, TOpt):
+                tr.err("`.map(closure)` on %r (only `Option`)" % (ot,), e)
+            cl = e.args[0]
+            live = set(v.lean for sc in tr.scopes for v in sc.values())
+            bname = lean_name(cl.params[0])
+            while bname in live:
+                bname += "'"
+            sub = Code()
+            tr.scopes.append({cl.params[0]: Var(cl.params[0], bname, ot.elem, False)})
+            try:
+                b, bt = tr.expr(cl.body, sub, expected.elem if isinstance(expected, TOpt) else None)
+            finally:
+                tr.scopes.pop()
+            sub.final = ("pure", "some %s" % atom(b))
+            none = Code()
+            none.final = ("pure", "none")
+            t = tr.tmp()
+            code.bind(t, ("match", o, [("some %s" % bname, sub), ("none", none)]))
+            return t, TOpt(bt)
+        if e.name == "to_vec" and not e.args:
+            return tr.expr(e.recv, code, expected)
+        return None
+    if k == "call":
+        if e.path == ["Vec", "with_capacity"] and len(e.args) == 1:
+            # the capacity expression is evaluated (it may panic), the vector is empty
+            if not isinstance(expected, TSeq):
+                tr.err("`Vec::with_capacity(..)` without a declared element type", e)
+            c, ct = tr.expr(e.args[0], code, TInt("usize"))
+            if ct != TInt("usize"):
+                tr.err("capacity of type %r" % (ct,), e)
+            return "[]", expected
+        return None
+    if k == "bin" and e.op in ("==", "!="):
+        def optish(x):
+            while x.kind == "paren":
+                x = x.e
+            return (x.kind == "call" and x.path == ["Some"]) or (x.kind == "var" and x.name == "None") or \
+                isinstance(bits_probe_type(tr, x), TOpt)
+        if optish(e.l) or optish(e.r):
+            lt = bits_probe_type(tr, e.l)
+            rt = bits_probe_type(tr, e.r)
+            want = lt if isinstance(lt, TOpt) else rt
+            if not isinstance(want, TOpt):
+                tr.err("comparison of `Option` values whose type cannot be read off the text", e)
+            l, lt = tr.expr(e.l, code, want)
+            r, rt = tr.expr(e.r, code, want)
+            if lt != rt or not isinstance(lt.elem, (TInt, TBool)):
+                tr.err("`%s` on %r and %r" % (e.op, lt, rt), e)
+            return "%s %s %s" % (atom(l), e.op, atom(r)), TBool()
+        return None
+    if k == "var" and e.name in tr.spec.get("consts", tr.unit.get("consts", {})) and not bits_declared(tr, e.name):
+        # a `const` table of the file: a parameter of the translated function (extracted separately, Gen/Dna2Int.lean)
+        return lean_name(e.name), tr.ty_of_text(tr.spec.get("consts", tr.unit.get("consts", {}))[e.name])
+    return None
+
+
+def bits_parse_ceil8(p):
+    """`(<e> as f64 / 8.0).ceil() as usize` — floating point is outside the subset; this one idiom ("number of bytes
+    for <e> bits") is translated as the call of the abstract function `ceil_div8_f64` (contract: ⌈e / 8⌉ for e < 2^53,
+    where the f64 arithmetic is exact; docs/notes/GEN.md)"""
+    i0 = p.i
+    try:
+        if not p.at("("):
+            return None
+        p.next()
+        x = p.peek()
+        e = p.unary(False)
+        while p.at("as"):
+            p.next()
+            t = p.type_()
+            if t.kind == "tname" and t.name == "f64":
+                break
+            e = N("cast", x.pos, e=e, ty=t)
+        else:
+            p.i = i0
+            return None
+        toks = [p.next() for _ in range(11)]
+        if [t.text for t in toks] != ["/", "8", ".", "0", ")", ".", "ceil", "(", ")", "as", "usize"]:
+            p.i = i0
+            return None
+        return N("call", x.pos, path=["ceil_div8_f64"], args=[e])
+    except Unsupported:
+        p.i = i0
+        return None
+
+
 # ================================================================================================== units (= generated files)
 
 def header_regex(header):
@@ -2736,6 +2930,40 @@ unit(name="SrcSmallInts", props="properties C18, C03", file="src/data_structures
                 dict(name="SmallInts::len", lean="len", header="pub fn len(&self) -> usize",
                      self_fields=SMALLINTS_FIELDS, params=[], ret="usize",
                      theorem="RbV.Thm.GenSrcSmallInts.len_eq_model")])
+
+
+# (genbits) rank/select.  `BitVec<u8>` and `SuperblockRank` are abstract types; the bit vector is observed through
+# `get_block` / `len` (bv crate, external: abstract functions whose contract is a hypothesis of the theorems),
+# `SuperblockRank` through its constructors and `Deref`.  `(bits.len() as f64 / 8.0).ceil() as usize` is the abstract
+# function `ceil_div8_f64` (contract ⌈x / 8⌉, exact below 2^53).
+RANKSELECT_ABS = {
+    "BitVec.get_block": dict(lean="getBlock", args=["BitVec", "usize"], ret="u8"),
+    "BitVec.len": dict(lean="bitsLen", args=["BitVec"], ret="u64"),
+    "BitVec.block_len": dict(lean="blockLen", args=["BitVec"], ret="usize"),
+    "ceil_div8_f64": dict(lean="ceilDiv8", args=["u64"], ret="usize"),
+    "SuperblockRank::First": dict(lean="sbFirst", args=["u64"], ret="SuperblockRank"),
+    "SuperblockRank::Some": dict(lean="sbSome", args=["u64"], ret="SuperblockRank"),
+    "deref:SuperblockRank": dict(lean="sbVal", args=["SuperblockRank"], ret="u64")}
+RANKSELECT_FIELDS = [("n", "usize"), ("bits", "BitVec"), ("superblocks_1", "Vec<SuperblockRank>"),
+                     ("superblocks_0", "Vec<SuperblockRank>"), ("s", "usize"), ("k", "usize")]
+
+unit(name="SrcRankSelect", props="property C17", file="src/data_structures/rank_select.rs",
+     imports=["RbV.Basic.RsSemBits"], generics={"BitVec": "β", "SuperblockRank": "σ"}, abstract_types=["BitVec"],
+     abstract_fns=RANKSELECT_ABS,
+     self_calls={"rank_1": dict(lean="SrcRankSelect.rank1", fields=[f for f, _ in RANKSELECT_FIELDS], args=["u64"],
+                                ret="Option<u64>", abs=True)},
+     functions=[dict(name="superblocks", lean="superblocks",
+                     header="fn superblocks(t: bool, n: usize, s: usize, bits: &BitVec<u8>) -> Vec<SuperblockRank>",
+                     params=[("t", "bool"), ("n", "usize"), ("s", "usize"), ("bits", "&BitVec<u8>")],
+                     ret="Vec<SuperblockRank>",
+                     locals={"superblocks": "Vec<SuperblockRank>", "last_rank": "Option<u64>", "i": "usize"},
+                     theorem="RbV.Thm.GenSrcRankSelect.superblocks_eq_model"),
+                dict(name="RankSelect::rank_1", lean="rank1", header="pub fn rank_1(&self, i: u64) -> Option<u64>",
+                     self_fields=RANKSELECT_FIELDS, params=[("i", "u64")], ret="Option<u64>", shadow_ok=True,
+                     theorem="RbV.Thm.GenSrcRankSelect.rank1_eq_model"),
+                dict(name="RankSelect::rank_0", lean="rank0", header="pub fn rank_0(&self, i: u64) -> Option<u64>",
+                     self_fields=RANKSELECT_FIELDS, params=[("i", "u64")], ret="Option<u64>",
+                     theorem="RbV.Thm.GenSrcRankSelect.rank0_eq_model")])
 
 
 unit(name="SrcBwt", props="property C04", file="src/data_structures/bwt.rs",
